@@ -99,7 +99,10 @@ pub fn copy_mem(from: &Core, to: &mut Core) {
   to.memory.io.interrupt_flag = crate::devices::interrupts::InterruptFlag::new(from.memory.io.interrupt_flag.as_u8());
 }
 
-fn status_eq(a: i64, b: i64) -> bool { a == b || (a == 4 && b == 5) || (a == 5 && b == 4) }
+/// status codes compared modulo Core::run_code_block's interpretation: 1 stop, 2 halt, 3 disable,
+/// 4 and 5 both enable, every other value is "nothing to do"
+fn status_class(a: i64) -> i64 { match a { 1 | 2 | 3 => a, 4 | 5 => 4, -1 | -2 => a, _ => 0 } }
+fn status_eq(a: i64, b: i64) -> bool { status_class(a) == status_class(b) }
 
 fn diff_fields(exp: &Value, obs: &Obs, core: &mut Core) -> Vec<String> {
   let mut d = Vec::new();
@@ -184,4 +187,53 @@ pub fn run(args: &[String]) {
                           "status": describe_status(*st)}));
   }
   println!("{}", json!({"kind": "summary", "cases": n, "pair_cases": pair_n, "crashes": res.crashes.len(), "truncated": res.truncated}));
+}
+
+/// C01(c)/C02: whole blocks at the engine level. Each scenario's block is run by
+/// interpreter::run_code_block on one core and translated + called on another (no device
+/// catch-up, no interrupt check); registers, status, ordered bus writes, memory and device
+/// registers must agree (class "effect"), and so must the cycles charged (class "cycles").
+pub fn blocks(args: &[String]) {
+  let scen = read_ndjson(&arg_value(args, "--scenarios").expect("--scenarios"));
+  silence_panics();
+  let capfile = format!("{}.stdout", arg_value(args, "--scenarios").unwrap());
+  let mut captured = false;
+  let res = run_isolated(scen.len(), |i, out| {
+    // (in the worker) what the blocks print through the serial port must not mix with the report
+    if !captured { let _ = crate::cmd_machine::Capture::start(&capfile); captured = true; }
+    let sc = &scen[i];
+    let mut ci = crate::cmd_machine::build_core(sc);
+    let mut cj = crate::cmd_machine::build_core(sc);
+    for c in [&mut ci, &mut cj].iter_mut() {
+      let p = mem_ptr(c);
+      if let Some(ws) = sc["init_writes"].as_array() { for w in ws { crate::mem::memory_write_byte(p, ju(&w[0]) as u16, ju(&w[1]) as u8); } }
+    }
+    let oi = block_interp(&mut ci);
+    let oj = block_jit(&mut cj);
+    let mut d: Vec<String> = Vec::new();
+    if oi.panic != oj.panic { d.push("panic".into()); }
+    if !oi.panic && !oj.panic {
+      if oi.cpu.af != oj.cpu.af { d.push("af".into()); }
+      if oi.cpu.bc != oj.cpu.bc { d.push("bc".into()); }
+      if oi.cpu.de != oj.cpu.de { d.push("de".into()); }
+      if oi.cpu.hl != oj.cpu.hl { d.push("hl".into()); }
+      if oi.cpu.sp != oj.cpu.sp { d.push("sp".into()); }
+      if oi.cpu.pc != oj.cpu.pc { d.push("pc".into()); }
+      if !status_eq(oi.st, oj.st) { d.push("st".into()); }
+      if oi.wr != oj.wr { d.push("wr".into()); }
+      if mem_hash(&ci) != mem_hash(&cj) { d.push("mem".into()); }
+      let (pi, pj) = (crate::cmd_machine::project(&mut ci), crate::cmd_machine::project(&mut cj));
+      for k in ["iflag", "ie", "div", "tima", "tma", "tac", "lyc", "en", "dact", "dpage", "p1", "jpend"].iter() { if pi[*k] != pj[*k] { d.push(format!("io.{}", k)); } }
+      if oi.cyc != oj.cyc { d.push("cyc".into()); }
+    }
+    if !d.is_empty() {
+      let class = if d == vec!["cyc".to_string()] { "cycles" } else { "effect" };
+      let line = json!({"kind": "pair-block", "class": class, "id": sc["id"], "fields": d, "interp": oi.to_json(), "jit": oj.to_json(),
+                        "scenario": {"rom": sc["rom"], "cpu": sc["cpu"], "init_writes": sc["init_writes"]}});
+      out.extend_from_slice(line.to_string().as_bytes()); out.push(b'\n');
+    }
+  });
+  for l in &res.lines { println!("{}", l); }
+  for (i, st) in &res.crashes { println!("{}", json!({"kind": "crash", "id": scen[*i]["id"], "status": describe_status(*st), "scenario": {"rom": scen[*i]["rom"], "cpu": scen[*i]["cpu"]}})); }
+  println!("{}", json!({"kind": "summary", "blocks": scen.len(), "crashes": res.crashes.len(), "truncated": res.truncated}));
 }
